@@ -901,3 +901,127 @@ def replay(rep):  # noqa: F811
         print('replay: %s' % ('violation reproduced on the real code' if r else 'not reproduced'))
         return 1 if r else 0
     return _rp8(rep)
+
+
+# ---- substances (C16): relational checks on the real evaluator (bounded stand-in / replay) ------------
+def _raw_frac(raw):
+    num = raw.split(' | ')[0].strip()
+    if num.startswith('float'):
+        return None
+    n, d = num.split('/')
+    return _F(int(n), int(d))
+
+
+_SUBST_ELEMS = {'H': 'hydrogen', 'C': 'carbon', 'O': 'oxygen', 'N': 'nitrogen', 'Na': 'sodium', 'Cl': 'chlorine'}
+_SUBST_FORMULAS = [('CH4', {'C': 1, 'H': 4}), ('CH3COOH', {'C': 2, 'H': 4, 'O': 2}), ('C6H12O6', {'C': 6, 'H': 12, 'O': 6}), ('NaCl', {'Na': 1, 'Cl': 1}),
+                   ('HOH', {'H': 2, 'O': 1}), ('C8H10N4O2', {'C': 8, 'H': 10, 'N': 4, 'O': 2}), ('NaClNa', {'Na': 2, 'Cl': 1}), ('C12', {'C': 12})]
+_SUBST_NOT = ['Xx2', 'C2h', 'Hx', '2H', 'H2O-']
+
+
+def _substance_witness():
+    if build_core() != 0:
+        return None
+
+    def q(line):
+        (ln, text, raw) = run_queries([line])[0]
+        return text, (_raw_frac(raw) if raw else None), raw
+
+    def bad(line, expected, text, why):
+        return {'replayer': 'substance', 'input': {'query': line, 'expected': expected}, 'output': text, 'why': why, 'cmd': '%s %r' % (QUERY_BIN, line)}
+    # linear in the amount, both directions, and the inverse
+    for sub, out, inn, unit_in, unit_out in (('water', 'mass', 'volume', 'liter', 'kg'), ('gold', 'mass', 'amount', 'mol', 'g'), ('water', 'mass', 'volume', 'gallon', 'lb')):
+        t1, v1, r1 = q('%s of 1 %s %s' % (out, unit_in, sub))
+        if v1 is None:
+            return bad('%s of 1 %s %s' % (out, unit_in, sub), 'a number', t1, 'expected a number, got %r' % t1.splitlines()[0])
+        for a in (_F(3), _F(7, 2), _F(1, 1000)):
+            line = '%s of (%s/%s) %s %s' % (out, a.numerator, a.denominator, unit_in, sub)
+            t, v, r = q(line)
+            if v != a * v1:
+                return bad(line, 'output * (a / input) = %s' % (a * v1), t, 'amount %s gives %s, expected %s (linear in the amount)' % (a, v, a * v1))
+        # inverse through explicit units
+        for a in (_F(3), _F(5, 2)):
+            line1 = '%s of (%s/%s) %s %s' % (out, a.numerator, a.denominator, unit_in, sub)
+            t, v, r = q(line1)
+            t0, v0, r0 = q('(%s/%s) %s' % (a.numerator, a.denominator, unit_in))
+            # value of the output in base units, fed back as an amount of the output quantity
+            line2 = '%s of (%s/%s) %s %s' % (inn, v.numerator, v.denominator, 'kg', sub)
+            t2, v2, r2 = q(line2)
+            if v2 != v0:
+                return bad(line2, 'the amount %s (base units) that produced this output' % v0, t2, 'asking for the %s of the reported %s returns %s, expected %s' % (inn, out, v2, v0))
+    # scaling by a number scales every reported property
+    for sub, prop in (('gold', 'molar_mass'), ('water', 'density'), ('gold', 'atomic_number')):
+        t1, v1, r1 = q('%s of %s' % (prop, sub))
+        if v1 is None:
+            continue
+        for k, form in ((_F(2), '(2 %s)'), (_F(1, 2), '(%s / 2)'), (_F(3, 4), '(3 %s / 4)'), (_F(5), '(%s * 5)')):
+            line = '%s of %s' % (prop, form % sub)
+            t, v, r = q(line)
+            if v != k * v1:
+                return bad(line, '%s times %s = %s' % (k, v1, k * v1), t, 'scaling the substance by %s gives %s, expected %s' % (k, v, k * v1))
+    t, v, r = q('molar_mass of (gold / 0)')
+    if not t.startswith('ERR'):
+        return bad('molar_mass of (gold / 0)', 'an error', t, 'a substance divided by zero is not refused')
+    # wrong dimensionality of the amount
+    for line in ('mass of 3 m water', 'volume of 3 s water', 'mass of 2 kg gold'):
+        t, v, r = q(line)
+        if line != 'mass of 2 kg gold' and not t.startswith('ERR Conformance'):
+            return bad(line, 'a conformance error', t, 'an amount of the wrong dimensionality is not refused with a conformance error')
+    # formulas: exact count-weighted sums
+    mm = {}
+    for sym, name in _SUBST_ELEMS.items():
+        t, v, r = q('molar_mass of %s' % name)
+        mm[sym] = v
+    if all(x is not None for x in mm.values()):
+        for f, counts in _SUBST_FORMULAS:
+            line = 'molar_mass of %s' % f
+            t, v, r = q(line)
+            want = sum(_F(n) * mm[s] for s, n in counts.items())
+            if v != want:
+                return bad(line, 'the count-weighted sum %s' % want, t, 'molar mass of %s is %s, expected %s' % (f, v, want))
+    for f in _SUBST_NOT:
+        line = 'molar_mass of %s' % f
+        t, v, r = q(line)
+        if not t.startswith('ERR'):
+            return bad(line, 'an error (not a formula)', t, 'text that is not a well-formed formula is treated as one')
+    return None
+
+
+_sf9 = search_family
+
+
+def search_family(fam, prop):  # noqa: F811
+    if fam == 'substance':
+        return _substance_witness()
+    return _sf9(fam, prop)
+
+
+_fw10 = find_witness
+
+
+def find_witness(o, rep):  # noqa: F811
+    slot = o.get('slot') or ''
+    if slot.startswith('Substance::') or slot.startswith('formula::') or slot in ('substance_from_formula', 'eval_expr::of') or o.get('unit') == 'substance':
+        w = _substance_witness()
+        if w:
+            return w
+    return _fw10(o, rep)
+
+
+_rp10 = replay
+
+
+def replay(rep):  # noqa: F811
+    w = rep.get('replay') or {}
+    if w.get('replayer') == 'substance':
+        if build_core() != 0:
+            return 0
+        i = rep['input']
+        (ln, text, raw) = run_queries([i['query']])[0]
+        print('> ' + i['query'])
+        print(text)
+        print('expected: ' + i['expected'])
+        w2 = _substance_witness()
+        bad = bool(w2 and w2['input']['query'] == i['query'])
+        print('replay: %s' % ('violation reproduced on the real code' if bad else 'not reproduced'))
+        return 1 if bad else 0
+    return _rp10(rep)
